@@ -495,6 +495,12 @@ def replay_entry(w):
             ctx.exported_vars.add("q")
             if canon(d) != before:
                 problems.append(f"Template.new_context(vars, shared={shared}, locals=...) or a store into the new context modified the caller's dict: {d}")
+            if shared:
+                d2 = {"a": 7}
+                c2 = t.new_context(d2, shared=True)
+                c2.vars["q"] = 1
+                if "q" in d2:
+                    problems.append("a store into a new context's vars reached the dict the context was built from (vars must be a fresh dict)")
             der = ctx.derived({"loc": 1})
             der.vars["w"] = 2
             if "w" in ctx.vars or "w" in ctx.parent or canon(d) != before:
